@@ -39,7 +39,7 @@ def gen_desc(rng, lib=None, n_inst=None, seq=True):
                 return nm
     for _ in range(rng.randint(1, 5)):
         if rng.random() < 0.4:
-            w = rng.randint(1, 5)
+            w = rng.choice([1, 2, 3, 4, 5, 12])      # 12: indices >= 10 (numeric vs. string order)
             lo = rng.randint(0, 3)
             rg = (lo + w - 1, lo) if rng.random() < 0.5 else (lo, lo + w - 1)
             nm = fresh('ib')
@@ -108,7 +108,7 @@ def gen_desc(rng, lib=None, n_inst=None, seq=True):
     cand = [s for s in sigs if s not in in_bits] or sigs
     for _ in range(rng.randint(1, 4)):
         if rng.random() < 0.35:
-            w = rng.randint(1, 4)
+            w = rng.choice([1, 2, 3, 4, 11])
             lo = rng.randint(0, 2)
             rg = (lo + w - 1, lo) if rng.random() < 0.5 else (lo, lo + w - 1)
             nm = fresh('ob')
